@@ -53,7 +53,7 @@ def check(run, replay):
                          "non-trivial = distinct (files, argv) with at least one suppression or inline mode.")
 
     vlib.ensure_repo_build()
-    ok = run.prove()
+    ok = run.prove(extra_targets=["theories/Supp/RunExec.vo"])
     model = vlib.build_model(PID) if ok or os.path.exists(os.path.join(vlib.COQ, "theories/Supp/RunExec.vo")) else None
     if not ok:
         run.violation("proof:" + PID, "Properties_C24.vo does not build: " + str(run.proof_error())[:300],
